@@ -161,5 +161,25 @@ int main(int argc, char **argv) {
         if(fabs(f1 - n1) > step_of(en_.first, s.family) * 1.0001) { snprintf(b, sizeof b, "glide %d->%d ends at %.3f Hz, its key's pitch is %.3f Hz", k1, k2, f1, n1); o.fail("C10/glide/end-point", b); return; }
         o.nontrivial = true; };
       fams.push_back(F); }
+    { // a glide that is under way when portamento is switched off (or its time / all controllers are reset) still belongs to the note: once time has passed the note sits on its own key, and a later bend re-pitches from there
+      en::Family F; F.name = "portamento_changed_during_glide"; F.count = 2 * 10 * 10 * 4; F.chunk = 16; F.budget_s = 60; F.describe = "portamento on (time 40), 10 x 10 key pairs, OPN2/OPNA; 100 ms into the glide {nothing, CC65 off, CC5 = 0, CC121}; after 4 s more the pitch registers must denote the second key, and a bend of +1 semitone that key + 1";
+      F.run = [](uint64_t i, en::CaseOut &o) { Sweep s; s.family = (int)(i % 2); s.range = 2; s.offset = 2; s.chan = 0; int k1 = 30 + 8 * (int)((i / 2) % 10), k2 = 34 + 8 * (int)((i / 20) % 10); int act = (int)(i / 200);
+        pl::Instance I; if(!setup(I, s, 0)) { o.fail("C10/harness", "setup"); return; } OPN2_MIDIPlayer *d = I.dev;
+        opn2_rt_controllerChange(d, 0, 5, 40); opn2_rt_controllerChange(d, 0, 65, 127);
+        opn2_rt_noteOn(d, 0, (OPN2_UInt8)k1, 100); opn2_rt_noteOff(d, 0, (OPN2_UInt8)k1);
+        opn2_rt_noteOn(d, 0, (OPN2_UInt8)k2, 100);
+        OPNMIDIplay &p = *I.play(); int c = -1; for(size_t x = 0; x < p.m_chipChannels.size(); x++) for(auto j = p.m_chipChannels[x].users.begin(); !j.is_end(); ++j) if(j->value.loc.note == k2) c = (int)x;
+        if(c < 0) { o.fail("C10/harness", "gliding note not found"); return; }
+        I.generate_ms(100);
+        static const char *AN[] = {"nothing", "CC65 off", "CC5 = 0", "CC121"};
+        if(act == 1) opn2_rt_controllerChange(d, 0, 65, 0); else if(act == 2) opn2_rt_controllerChange(d, 0, 5, 0); else if(act == 3) opn2_rt_controllerChange(d, 0, 121, 0);
+        I.generate_ms(4000);
+        auto fr = [&]() { const pl::ChipShadow &cs = I.tap.chips[0]; int port = c / 3, cc = c % 3; return std::make_pair((unsigned)cs.regs[port][0xA4 + cc], (unsigned)cs.regs[port][0xA0 + cc]); };
+        char b[240]; auto e1 = fr(); double f1 = freq_of(e1.first, e1.second, s.family), n1 = 440.0 * pow(2.0, (k2 - 69.0) / 12.0);
+        if(fabs(f1 - n1) > step_of(e1.first, s.family) * 1.0001) { snprintf(b, sizeof b, "glide %d->%d, %s 100 ms into it: 4 s later the note is at %.3f Hz, its key's pitch is %.3f Hz", k1, k2, AN[act], f1, n1); o.fail("C10/glide/end-point", b); return; }
+        opn2_rt_pitchBend(d, 0, 12288); auto e2 = fr(); double f2 = freq_of(e2.first, e2.second, s.family), n2 = 440.0 * pow(2.0, (k2 + 1.0 - 69.0) / 12.0);
+        if(fabs(f2 - n2) > step_of(e2.first, s.family) * 1.0001) { snprintf(b, sizeof b, "glide %d->%d, %s 100 ms into it, 4 s later bend +1 semitone: %.3f Hz, expected %.3f Hz", k1, k2, AN[act], f2, n2); o.fail("C10/glide/bend-after-glide", b); return; }
+        if(i % 53 == 0) o.sample = std::string("glide with ") + AN[act] + " during it"; o.units = 2; o.nontrivial = true; };
+      fams.push_back(F); }
     return en::run_main(argc, argv, "C10", fams, TAGS, "non-trivial: every pitch of the sweep inside the native range was compared with the datasheet formula");
 }
